@@ -167,7 +167,15 @@ package slice
 //@   at after "tails[0] = 0": ghost cl[0] = 1
 //@   at after "tails = append(tails, i)": ghost cl[i] = len(tails)
 //@   at after "tails[replaceIdx] = i": ghost cl[i] = replaceIdx + 1
-//@   at before "tails[replaceIdx] = i": assert [C12] 0 <= replaceIdx && replaceIdx < len(tails) && (forall k int :: {tails[k]} 0 <= k && k < replaceIdx ==> ord(cmp, vs[tails[k]], vs[i]) <= 0) && (forall k int :: {tails[k]} replaceIdx <= k && k < len(tails) ==> ord(cmp, vs[i], vs[tails[k]]) < 0)
+//@   at loop 1 head: ghost p0 = snap(prev)
+//@   at loop 1 head: ghost t0 = snap(tails)
+//@   at loop 1 end: assert [C12] forall x int :: {prev[x]} 0 <= x && x < it1 ==> prev[x] == p0[prev.off + x]
+//@   at before "if replaceIdx == 0": assert [C12] 0 <= replaceIdx && replaceIdx < len(tails) && (forall k int :: {t0[tails.off + k]} 0 <= k && k < replaceIdx ==> ord(cmp, vs[t0[tails.off + k]], vs[i]) <= 0) && (forall k int :: {t0[tails.off + k]} replaceIdx <= k && k < len(tails) ==> ord(cmp, vs[i], vs[t0[tails.off + k]]) < 0)
+//@   at after "prev[i] = -1": assert [C12] prev[i] == -1 && replaceIdx == 0
+//@   at after "prev[i] = tails[replaceIdx-1]": assert [C12] replaceIdx != 0 && prev[i] == tails[replaceIdx - 1] && 0 <= prev[i] && prev[i] < i && cl[prev[i]] == replaceIdx && ord(cmp, vs[prev[i]], vs[i]) <= 0
+//@   at before "tails[replaceIdx] = i": ghost p1 = snap(prev)
+//@   at after "tails[replaceIdx] = i": assert [C12] forall x int :: {prev[x]} 0 <= x && x <= i ==> prev[x] == p1[prev.off + x]
+//@   at after "tails[replaceIdx] = i": assert [C12] forall k int :: {tails[k]} 0 <= k && k < len(tails) && k != replaceIdx ==> tails[k] == t0[tails.off + k]
 //@   loop 1: invariant shape: 1 <= len(tails) && len(tails) <= it1 + 1 && it1 + 1 <= len(vs) && cap(tails) == len(vs) && len(prev) == len(vs) && fresh(tails) && fresh(prev) && tails.base != prev.base && unchanged(elems(vs)) && old_arrays_unchanged(tails)
 //@   loop 1: invariant tails: tailsOK(vs, cmp, tails, cl, it1 + 1, false)
 //@   loop 1: invariant chain: chainOK(vs, cmp, prev, cl, it1 + 1, len(tails), false)
@@ -178,3 +186,39 @@ package slice
 //@   loop 2: invariant order: forall a int, b int :: {ret[a], ret[b]} len(ret) - it2 <= a && b == a + 1 && b < len(ret) ==> w[a] < w[b] && ord(cmp, ret[a], ret[b]) <= 0
 //@   loop 2: invariant link: 0 < it2 && it2 < len(ret) ==> seqIdx < w[len(ret) - it2] && ord(cmp, vs[seqIdx], vs[w[len(ret) - it2]]) <= 0
 //@   loop 2: invariant chain: chainOK(vs, cmp, prev, cl, len(vs), len(tails), false)
+//@
+//@ func LISFunc
+//@   role cmp ord
+//@   ghostret w imap[int], cl imap[int]
+//@   ensures [C12] empty: len(vs) == 0 ==> result == vs
+//@   ensures [C12] fresh: len(vs) > 0 ==> fresh(result) && len(result) >= 1 && len(result) <= len(vs)
+//@   ensures [C12] subseq: len(vs) > 0 ==> forall k int :: {result[k]} 0 <= k && k < len(result) ==> 0 <= w[k] && w[k] < len(vs) && result[k] == vs[w[k]]
+//@   ensures [C12] order: len(vs) > 0 ==> forall a int, b int :: {result[a], result[b]} 0 <= a && b == a + 1 && b < len(result) ==> w[a] < w[b] && ord(cmp, result[a], result[b]) < 0
+//@   ensures [C12] input: unchanged(elems(vs))
+//@   at after "tails[0] = 0": ghost cl[0] = 1
+//@   at after "tails = append(tails, i)": ghost cl[i] = len(tails)
+//@   at after "tails[replaceIdx] = i": ghost cl[i] = replaceIdx + 1
+//@   at loop 1 head: ghost p0 = snap(prev)
+//@   at loop 1 head: ghost t0 = snap(tails)
+//@   at loop 1 end: assert [C12] forall x int :: {prev[x]} 0 <= x && x < it1 ==> prev[x] == p0[prev.off + x]
+//@   at before "if replaceIdx == 0": assert [C12] 0 <= replaceIdx && replaceIdx < len(tails) && (forall k int :: {t0[tails.off + k]} 0 <= k && k < replaceIdx ==> ord(cmp, vs[t0[tails.off + k]], vs[i]) < 0) && (forall k int :: {t0[tails.off + k]} replaceIdx <= k && k < len(tails) ==> ord(cmp, vs[i], vs[t0[tails.off + k]]) <= 0) && (forall k int :: {t0[tails.off + k]} replaceIdx < k && k < len(tails) ==> ord(cmp, vs[i], vs[t0[tails.off + k]]) < 0)
+//@   at after "prev[i] = -1": assert [C12] prev[i] == -1 && replaceIdx == 0
+//@   at after "prev[i] = tails[replaceIdx-1]": assert [C12] replaceIdx != 0 && prev[i] == tails[replaceIdx - 1] && 0 <= prev[i] && prev[i] < i && cl[prev[i]] == replaceIdx && ord(cmp, vs[prev[i]], vs[i]) < 0
+//@   at before "tails[replaceIdx] = i": ghost p1 = snap(prev)
+//@   at after "tails[replaceIdx] = i": assert [C12] forall x int :: {prev[x]} 0 <= x && x <= i ==> prev[x] == p1[prev.off + x]
+//@   loop 1: invariant shape: 1 <= len(tails) && len(tails) <= it1 + 1 && it1 + 1 <= len(vs) && cap(tails) == len(vs) && len(prev) == len(vs) && fresh(tails) && fresh(prev) && tails.base != prev.base && unchanged(elems(vs)) && old_arrays_unchanged(tails)
+//@   loop 1: invariant tails: tailsOK(vs, cmp, tails, cl, it1 + 1, true)
+//@   loop 1: invariant chain: chainOK(vs, cmp, prev, cl, it1 + 1, len(tails), true)
+//@   at after "ret[len(ret)-1-i] = vs[seqIdx]": ghost w[len(ret) - 1 - i] = seqIdx
+//@   loop 2: invariant shape: len(ret) == len(tails) && fresh(ret) && ret.base != tails.base && ret.base != prev.base && len(prev) == len(vs) && unchanged(elems(vs))
+//@   loop 2: invariant cursor: (it2 < len(ret) ==> 0 <= seqIdx && seqIdx < len(vs) && cl[seqIdx] == len(ret) - it2) && (it2 == len(ret) ==> true)
+//@   loop 2: invariant filled: forall k int :: {ret[k]} len(ret) - it2 <= k && k < len(ret) ==> 0 <= w[k] && w[k] < len(vs) && ret[k] == vs[w[k]] && cl[w[k]] == k + 1
+//@   loop 2: invariant order: forall a int, b int :: {ret[a], ret[b]} len(ret) - it2 <= a && b == a + 1 && b < len(ret) ==> w[a] < w[b] && ord(cmp, ret[a], ret[b]) < 0
+//@   loop 2: invariant link: 0 < it2 && it2 < len(ret) ==> seqIdx < w[len(ret) - it2] && ord(cmp, vs[seqIdx], vs[w[len(ret) - it2]]) < 0
+//@   loop 2: invariant chain: chainOK(vs, cmp, prev, cl, len(vs), len(tails), true)
+//@
+//@ func LNDS
+//@   ensures [C12] len(vs) == 0 ==> result == vs
+//@
+//@ func LIS
+//@   ensures [C12] len(vs) == 0 ==> result == vs
